@@ -354,11 +354,13 @@ def _increasing(draw, m, kind):
             # make sure a pair of NEIGHBOURS that only exact comparison separates is among the values (both members)
             pairs = [i for i in range(len(pool) - 1) if float(pool[i]) == float(pool[i + 1])]
             i = draw(st.sampled_from(pairs))
-            keep = sorted(idx - {i, i + 1})
-            drop = draw(st.permutations(keep))[: max(0, len(keep) - (m - 2))] if len(keep) > m - 2 else []
-            idx = (set(keep) - set(drop)) | {i, i + 1}
-            while len(idx) < m:
-                idx.add(draw(st.integers(0, len(pool) - 1)))
+            # the other values preferably all on one side, so that the pair holds the first two or the last two places
+            above = list(range(i + 2, len(pool)))
+            below = list(range(0, i))
+            side = draw(st.sampled_from(["above", "below", "any"]))
+            cand = above if side == "above" and len(above) >= m - 2 else below if side == "below" and len(below) >= m - 2 else above + below
+            rest = list(draw(st.permutations(cand)))[: m - 2]
+            idx = set(rest) | {i, i + 1}
         return [pool[i] for i in sorted(idx)][:m] if len(idx) >= m else [pool[i] for i in sorted(idx)]
     # float / mixed: floats (some integral-valued), strictly increasing
     vals = draw(st.lists(st.one_of(st.floats(-1e6, 1e6), st.integers(-20, 20).map(float), st.floats(-2.0, 2.0)),
